@@ -7,7 +7,7 @@ Families
   rd_gzip_rt                ... on the writer's own output
   rd_gzip_arb               ... on N arbitrary bytes (documented codes, bounds, exact verdict, contents)
   rd_zlib_spec / _rt / _arb the same for isal_read_zlib_header
-  zlib_dictid_order         DICTID most-significant-byte first (finding_key zlib-dictid-byte-order)
+  zlib_dictid_order         DICTID most-significant-byte first (was a genuine defect: repaired in /repo 12d0b86)
   rd_hcrc_field             gz_hdr.hcrc after a chunked read of a header without FHCRC
   inflate_hdr_chunked       isal_inflate(): header split over two calls == one-shot
 """
@@ -49,8 +49,8 @@ _TIER = ["quick"]
 
 
 def q(qs, qid, harness, units, hdef, family, unwind=42, core=False, witness=True, key=None, weight=1.0):
-    if _TIER[0] != "quick" and not core and len(qs) % 4:
-        witness = False  # thorough: vacuity twin on every 4th query and on all core queries
+    if not core and len(qs) % (2 if _TIER[0] == "quick" else 4):
+        witness = False  # vacuity twin on all core queries and on every 2nd (quick) / 4th (thorough) other query
     p = dict(harness=harness, units=units, vunits=STUBS, hdefines=hdef, unwind=unwind, flags=FLAGS, witness=witness)
     if key:
         p["finding_key"] = key
@@ -64,8 +64,7 @@ def plan(tier, ctx):
 
     # ------------------------------------------------------------------ writers
     if quick:
-        wcfg = [(-1, -1, -1), (0, -1, -1), (3, -1, -1), (-1, 1, -1), (-1, 4, -1), (-1, -1, 3), (2, 3, 2), (3, 4, 4),
-                (1, 1, 1), (-1, 2, 2)]
+        wcfg = [(-1, -1, -1), (0, -1, -1), (3, -1, -1), (-1, 4, -1), (-1, -1, 3), (2, 3, 2), (3, 4, 4)]
     else:
         rng = [-1, 0, 1, 2, 3]
         srng = [-1, 1, 2, 3, 4]
@@ -74,7 +73,7 @@ def plan(tier, ctx):
         lo = 10 + (2 + e if e >= 0 else 0) + (1 if n >= 0 else 0) + (1 if c >= 0 else 0)
         hi = 10 + (2 + e if e >= 0 else 0) + max(n, 0) + max(c, 0) + 2
         if quick:
-            av = sorted({0, lo - 1, lo, lo + 1, (lo + hi) // 2, hi - 1, hi, hi + 1})
+            av = sorted({0, lo - 1, lo, (lo + hi) // 2, hi - 1, hi, hi + 1})
         else:
             av = sorted({0} | set(range(lo - 1, hi + 2)))
         for a in av:
@@ -85,7 +84,7 @@ def plan(tier, ctx):
         q(qs, "wr_zlib/avail%d" % a, HW, U_W, ["W_ZLIB", "AVAIL=%d" % a], "wr_zlib", core=(a in (2, 6)))
     for a in (6, 8):
         q(qs, "zlib_dictid_order/wr/avail%d" % a, HW, U_W, ["W_ZLIB", "AVAIL=%d" % a, "DICTID_ORDER"],
-          "zlib_dictid_order", key=K_DICTID)
+          "zlib_dictid_order", core=True)
 
     # ------------------------------------------------------------------ gzip reader, spec-generated headers
     if quick:
@@ -196,9 +195,9 @@ def plan(tier, ctx):
     for nn in range(0, 9):
         q(qs, "rd_zlib_arb/n%d" % nn, HR, U_RW, ["R_Z_ARB", "N=%d" % nn], "rd_zlib_arb", unwind=12, core=(nn in (2, 6)))
     q(qs, "zlib_dictid_order/rd/oneshot", HR, U_RW, ["R_Z_SPEC", "FDICT=1", "DICTID_ORDER"], "zlib_dictid_order", unwind=12,
-      key=K_DICTID)
+      core=True)
     q(qs, "zlib_dictid_order/rd/split3", HR, U_RW, ["R_Z_SPEC", "FDICT=1", "DICTID_ORDER", "SPLIT=3", "ZINFO=7", "ZLEVEL=2"],
-      "zlib_dictid_order", unwind=12, key=K_DICTID)
+      "zlib_dictid_order", unwind=12, core=True)
 
     # ------------------------------------------------------------------ isal_inflate(): header over two calls
     ish = [(-1, -1, -1), (-1, 2, -1), (-1, 2, 2), (2, 2, -1)] if quick else \
@@ -235,7 +234,7 @@ def plan(tier, ctx):
         bounds={
             "writers": "extra NULL or xlen 0..3, name/comment NULL or buffer of 1..4 bytes with symbolic contents incl. NUL "
                        "position; all scalar fields symbolic 32-bit; avail_out concrete: 0 and every value from (min required-1) "
-                       "to (max required+1) [quick: 7 values per shape, 10 of 125 shapes]; zlib avail_out 0..8",
+                       "to (max required+1) [quick: <= 7 values per shape, 7 of 125 shapes]; zlib avail_out 0..8",
             "readers_spec": "header shapes extra{absent,0,2,3} x name{absent,0,1,3 chars} x comment{absent,0,2} x FHCRC "
                             "[quick 8 shapes]; two chunks at every split point 0..len-1 [quick: every point for 2 shapes, "
                             "7 points otherwise]; MTIME/XFL/OS/extra bytes/stored CRC16/tail symbolic; FLG, XLEN and the "
@@ -275,7 +274,6 @@ def plan(tier, ctx):
         trusted_base=["cbmc 6.11 C front end + SAT back end", "spec/rfc1950_1952.h (transcribed from RFC 1952 2.3, RFC 1950 2.2)"],
         prepare=_prepare,
         extra={"exhaustive": False,
-               "finding_keys": {"zlib-dictid-byte-order": "families zlib_dictid_order",
-                                "gzip-hcrc-field-after-chunked-read": "family rd_hcrc_field",
+               "finding_keys": {"gzip-hcrc-field-after-chunked-read": "family rd_hcrc_field",
                                 "isal_inflate-gzip-header-state-lost-between-calls": "family inflate_hdr_chunked (gzip)",
                                 "isal_inflate-zlib-fdict-lost-between-calls": "family inflate_hdr_chunked (zlib)"}})
